@@ -17,7 +17,7 @@ ASSUMPTIONS = [
     "known finding K02 (alpha-EMA decays on masked rows, required by the repository's tests) is suppressed by mechanism only",
 ]
 OPS = ops.RED + ["var", "std", "median", "quantile"] + ops.CUM + ops.ROLL + ops.SHIFT + ["ema", "ema"]
-N_CASES = {"quick": 900, "thorough": 25000}
+N_CASES = {"quick": 900, "thorough": 8000}
 
 
 def plan(tier):
